@@ -130,6 +130,12 @@ func Audit(c *vh.Case, t *chainx.Tree, nd *chainx.Node, res string, before strin
 			}
 		}
 	}
+	// nothing is indexed above the tip
+	for h := tip.Height + 1; h <= tip.Height+4; h++ {
+		if ci, ok := nd.CM.BestIndex(h); ok {
+			c.Oracle("best-index-above-tip", "BestIndex(%d) returns %v although the tip is at height %d", h, ci, tip.Height)
+		}
+	}
 	// tip moves only to a sufficiently heavier chain; work never decreases; notification iff moved
 	if tid != beforeTip {
 		if !heavier(t.Blocks[tid], t.Blocks[beforeTip]) {
@@ -169,7 +175,7 @@ func Audit(c *vh.Case, t *chainx.Tree, nd *chainx.Node, res string, before strin
 func genCfg(r *vh.Run, rng *vh.RNG) chainx.GenCfg {
 	return chainx.GenCfg{
 		Main: 4 + rng.Intn(r.Pick(8, 14)), Forks: 1 + rng.Intn(3), MaxBranch: 3 + rng.Intn(r.Pick(6, 12)),
-		Kinds: chainx.BasicKinds, TxPerBlk: 2, Corrupt: rng.Intn(4), Extend: 3,
+		Kinds: chainx.BasicKinds, TxPerBlk: 2, Corrupt: rng.Intn(4), Extend: 3, Directed: rng.Chance(2, 3),
 	}
 }
 
@@ -195,9 +201,9 @@ func SubmitV2(t *chainx.Tree, nd *chainx.Node, batch []int, nStates int) (res st
 	return ErrKind(nd.CM.AddValidatedV2Blocks(t.Get(batch), states))
 }
 
-// preValidated reports whether batch is what an honest syncer hands to AddValidatedV2Blocks: a
+// PreValidated reports whether batch is what an honest syncer hands to AddValidatedV2Blocks: a
 // parent-linked run of fully valid v2 blocks.
-func preValidated(t *chainx.Tree, batch []int) bool {
+func PreValidated(t *chainx.Tree, batch []int) bool {
 	for k, id := range batch {
 		b := t.Blocks[id]
 		// the pre-validated path stores an empty supplement, which is the right supplement only for
@@ -219,7 +225,7 @@ func RunTree(r *vh.Run, name string, t *chainx.Tree, sched [][]int) {
 	for _, b := range t.Blocks[1:] {
 		c.Op(b.DeclLine(), "ok")
 	}
-	reorgs, failed, errs := 0, 0, 0
+	reorgs, failed, errs, nearTies := 0, 0, 0, 0
 	for bi, batch := range sched {
 		before := Observe(t, nd, "x")
 		beforeState := encState(nd)
@@ -229,7 +235,7 @@ func RunTree(r *vh.Run, name string, t *chainx.Tree, sched [][]int) {
 		var sb strings.Builder
 		// every third eligible batch goes through the pre-validated path, sometimes with a wrong
 		// number of states
-		if preValidated(t, batch) && (len(batch)+bi)%3 == 0 {
+		if PreValidated(t, batch) && (len(batch)+bi)%3 == 0 {
 			nStates := len(batch)
 			if (len(batch)+bi)%5 == 0 {
 				nStates++
@@ -248,6 +254,9 @@ func RunTree(r *vh.Run, name string, t *chainx.Tree, sched [][]int) {
 		if res == "panic" {
 			c.Oracle("addblocks-panic", "AddBlocks/AddValidatedV2Blocks panicked on batch %v: %s", batch, LastPanic)
 			break
+		}
+		if lb := t.Blocks[batch[len(batch)-1]]; lb.Work != nil && t.AllValid(lb.ID) && lb.Work.Cmp(t.Blocks[beforeTip].Work) > 0 && !heavier(lb, t.Blocks[beforeTip]) {
+			nearTies++
 		}
 		Audit(c, t, nd, res, before, beforeState, beforeTip, beforeN)
 		afterTip, _ := t.Lookup(nd.CM.Tip().ID)
@@ -274,6 +283,15 @@ func RunTree(r *vh.Run, name string, t *chainx.Tree, sched [][]int) {
 	for _, b := range t.Blocks {
 		if b.Corrupt != "" {
 			c.Tags = append(c.Tags, "corrupt:"+b.Corrupt)
+			if b.HdrOk && !b.BodyOk && !b.Future {
+				if len(b.Block.Transactions) == 0 {
+					c.Tags = append(c.Tags, "body-invalid:v2-only-block")
+				} else if b.V2 {
+					c.Tags = append(c.Tags, "body-invalid:v2-block-with-v1-txns")
+				} else {
+					c.Tags = append(c.Tags, "body-invalid:v1-block")
+				}
+			}
 		}
 	}
 	if reorgs > 0 {
@@ -281,6 +299,12 @@ func RunTree(r *vh.Run, name string, t *chainx.Tree, sched [][]int) {
 	}
 	if failed > 0 {
 		c.Tags = append(c.Tags, "has-failed-reorg")
+	}
+	if nearTies > 0 {
+		c.Tags = append(c.Tags, "has-near-tie-heavier-but-not-sufficient")
+	}
+	for _, d := range t.Disagreements {
+		c.Oracle("manager-verdict-differs-from-consensus", "%s", d)
 	}
 	c.Tags = append(c.Tags, fmt.Sprintf("v2allow:%d", t.Net.N.HardforkV2.AllowHeight))
 	c.Nontrivial = reorgs > 0 || errs > 0
